@@ -119,6 +119,22 @@ func (uh *UpstreamHost) Available() bool {
 	return !uh.Down() && !uh.Full()
 }
 
+// reserve counts one more request in flight on the upstream host and
+// reports true, unless the host has reached its maximum number of
+// connections. Checking and counting are one atomic step, so concurrent
+// requests can not exceed MaxConns together.
+func (uh *UpstreamHost) reserve() bool {
+	for {
+		n := atomic.LoadInt64(&uh.Conns)
+		if uh.MaxConns > 0 && n >= uh.MaxConns {
+			return false
+		}
+		if atomic.CompareAndSwapInt64(&uh.Conns, n, n+1) {
+			return true
+		}
+	}
+}
+
 // ServeHTTP satisfies the httpserver.Handler interface.
 func (p Proxy) ServeHTTP(w http.ResponseWriter, r *http.Request) (int, error) {
 	// start by selecting most specific matching upstream config
@@ -252,8 +268,13 @@ func (p Proxy) ServeHTTP(w http.ResponseWriter, r *http.Request) (int, error) {
 		//   The call to proxy.ServeHTTP can theoretically panic.
 		//   To prevent host.Conns from getting out-of-sync we thus have to
 		//   make sure that it's _always_ correctly decremented afterwards.
+		//
+		//   Select only looked at host.Conns; a concurrent request may have
+		//   taken the last free slot since then, in which case we select again.
+		if !host.reserve() {
+			continue
+		}
 		func() {
-			atomic.AddInt64(&host.Conns, 1)
 			defer atomic.AddInt64(&host.Conns, -1)
 			backendErr = proxy.ServeHTTP(w, outreq, downHeaderUpdateFn)
 		}()
